@@ -169,7 +169,77 @@ func allowedIn(f *ssa.Function, in []string) bool {
 	return false
 }
 
+// scanAlways decides `always <callee> in F`: every path of F from its entry to a return
+// passes through a call of callee (the call is not skipped on any branch). Paths that end in
+// a panic do not count. Calls in contract-less helpers are not looked for: the call has to be
+// in F itself.
+func (eng *Engine) scanAlways(pi *PkgInfo, sd *Structural) (bad []string, sites int) {
+	target := sd.Target
+	for _, fname := range sd.In {
+		f := eng.findFunction(sd.PkgPath, fname)
+		if f == nil || len(f.Blocks) == 0 {
+			continue
+		}
+		has := map[*ssa.BasicBlock]bool{}
+		for _, b := range f.Blocks {
+			for _, in := range b.Instrs {
+				ci, isCall := in.(ssa.CallInstruction)
+				if !isCall {
+					continue
+				}
+				if _, isDefer := in.(*ssa.Defer); isDefer {
+					continue
+				}
+				if _, isGo := in.(*ssa.Go); isGo {
+					continue
+				}
+				n := ""
+				cc := ci.Common()
+				if cc.IsInvoke() {
+					n = typeName(cc.Value.Type()) + "." + cc.Method.Name()
+				} else if sf := cc.StaticCallee(); sf != nil {
+					n = stripTypeParams(shortenPaths(sf.String()))
+				}
+				if n == target || n == pi.Types.Name()+"."+target || strings.Replace(n, pi.Types.Name()+".", "", 1) == target {
+					has[b] = true
+					sites++
+				}
+			}
+		}
+		// is a return reachable from the entry without passing through a block that calls it?
+		seen := map[*ssa.BasicBlock]bool{}
+		var stack []*ssa.BasicBlock
+		if !has[f.Blocks[0]] {
+			stack = append(stack, f.Blocks[0])
+		}
+		for len(stack) > 0 {
+			b := stack[len(stack)-1]
+			stack = stack[:len(stack)-1]
+			if seen[b] {
+				continue
+			}
+			seen[b] = true
+			if len(b.Instrs) > 0 {
+				if _, isRet := b.Instrs[len(b.Instrs)-1].(*ssa.Return); isRet {
+					p := eng.fset.Position(b.Instrs[len(b.Instrs)-1].Pos())
+					bad = append(bad, fmt.Sprintf("%s can return (%s:%d) without having called %s", localName(f), p.Filename, p.Line, target))
+					continue
+				}
+			}
+			for _, s := range b.Succs {
+				if !has[s] && !seen[s] {
+					stack = append(stack, s)
+				}
+			}
+		}
+	}
+	return bad, sites
+}
+
 func (eng *Engine) scanStructural(pi *PkgInfo, sd *Structural) (bad []string, sites int) {
+	if sd.Kind == "always" {
+		return eng.scanAlways(pi, sd)
+	}
 	pkgName := pi.Types.Name()
 	qual := func(s string) string {
 		if strings.Contains(s, ".") && !strings.HasPrefix(s, "(") {
